@@ -34,6 +34,7 @@ ASSUMPTIONS = [
     "(their distribution consistency is C03, the convolved labels are tied to their factors by Mellin moments in the 'moments' states, NLO moments are benchmarked against eko by the test-suite)",
     "flavour structure written out by hand (valence/sea decomposition); heavy-quark rows |pid|>n_f (intrinsic channel) must carry no factorisation logs",
     "beta0 = 11-2nf/3, beta1 = 102-38nf/3; n_f from the threshold count (C06)",
+    "canonical projectile and proton target for the main lattice; a PTO 2 sub-lattice with positron / antineutrino / charged-lepton CC / neutrino NC, iron and neutron targets, polarised beam with propagator correction",
 ]
 BUDGET = {"quick": 1500, "thorough": 7200}
 
@@ -76,6 +77,14 @@ def _states_base(tier, seed):
                 if th:
                     st["theory"] = dict(th)
                 out.append(st)
+    # non-canonical projectiles, nuclear targets, polarised beam: the weights change, the RGE identities act on whatever central coefficients result
+    for (k, p, proj), h, sc, extra in itertools.product(
+        [("F2", "NC", "positron"), ("F3", "NC", "positron"), ("F2", "CC", "antineutrino"), ("F3", "CC", "antineutrino"), ("FL", "CC", "electron"), ("F3", "CC", "positron"), ("F2", "NC", "neutrino"), ("g1", "NC", "positron")],
+        ["total", "light"], ["ZM-VFNS", "FFNS3"], [{}, {"target": "iron"}, {"obscard": {"PolarizationDIS": -0.6, "PropagatorCorrection": 0.05}, "target": "neutron"}],
+    ):
+        if sc == "FFNS3" and h == "light" and extra:
+            continue
+        out.append(dict({"t": "cell", "kind": k, "heavyness": h, "process": p, "scheme": sc, "pto": 2, "Q2": 30.0, "projectile": proj}, **extra))
     for nf in (3, 4, 5, 6):
         out.append({"t": "moments", "nf": nf})
     # several n_f regions inside ONE runner (the splitting-operator cache of the scale-variation manager is shared by all points and observables)
@@ -210,7 +219,7 @@ def execute(st):
     obs = {name: [cards.kin(x, st["Q2"]) for x in xs_]}
     runs = {}
     for ren, fact in ((True, True), (True, False), (False, True), (False, False)):
-        c = {k: st[k] for k in ("process", "scheme", "pto")}
+        c = {k: st[k] for k in ("process", "scheme", "pto", "projectile", "target", "obscard") if k in st}
         c["grid"] = st.get("grid", "G6")
         c["theory"] = dict(st.get("theory", {}), RenScaleVar=ren, FactScaleVar=fact)
         out, status = rel.try_run(c, obs)
